@@ -68,6 +68,7 @@ func runOnce(f string, quiet bool) bool {
 				fmt.Printf("%s\n", debug.Stack())
 			}
 		}()
+		resetGlobals()
 		fn()
 	}()
 	if escaped != nil {
